@@ -465,7 +465,9 @@ def run_layer(case, rec):
         steps = [{}, {"nsig": 3.0}, {"n": 10}, {"width": 0.2}, {"type": "lognormal"}, {"value": v0*1.25}, {"nsig": 2.0},
                  {"type": "gaussian"}, {"nsig": 2.5}, {"width": 0.12},
                  # widths above one (the quantifier goes to PD = 2): the hard limits cut the lower tail
-                 {"width": 1.5}, {"type": "uniform"}, {"width": 1.9, "type": "boltzmann"}]
+                 {"width": 1.5}, {"type": "uniform"}, {"width": 1.9, "type": "boltzmann"},
+                 # the value alone changed several times in a row, and back
+                 {"width": 0.15, "type": "gaussian", "value": v0}, {"value": v0*0.8}, {"value": v0*1.6}, {"value": v0}]
         # hard limits as declared in the model's parameter table (for an element of a vector parameter: the
         # limits of the vector), not as carried by the expanded call parameter
         decl = [kp for kp in info.parameters.kernel_parameters
